@@ -26,11 +26,11 @@ def generate(seed, mode="c09", opts=None):
     ngen = ch.rint(1, 4, "ngen")
     gens = []
     for g in range(ngen):
-        shape = ch.pick(["P1", "P2", "P3", "P4", "P0"], "shape")
+        shape = ch.pick(["P1", "P2", "P3", "P4", "P0", "P5"], "shape")
         cached = [j for j in range(g) if gens[j]["cache"]]  # only caching generators are called by others
         body = ch.weighted([(5, "build"), (3 if cached else 0, "call"), (2 if cached else 0, "pass"), (2, "raise_n")], "body")
         callee = ch.pick(cached, "callee") if cached and body in ("call", "pass") else None
-        gens.append({"shape": shape, "body": body, "callee": callee, "n_fail": ch.rint(1, 2, "nfail") if body == "raise_n" else 0, "cache": not (body == "call" and ch.chance(1, 3))})
+        gens.append({"shape": shape, "body": body, "callee": callee, "n_fail": ch.rint(1, 2, "nfail") if body == "raise_n" else 0, "abort": body == "raise_n" and ch.chance(1, 3), "cache": not (body == "call" and ch.chance(1, 3))})
     ncalls = ch.rint(4, 20, "ncalls")
     ops = []
     for _ in range(ncalls):
@@ -60,6 +60,8 @@ NEAR = [0.3, 0.1 + 0.2, 0.30000000000000004, 0.29999999999999993, 1e22, 1e22 + 2
 def draw_params(ch, shape):
     if shape == "P0":
         return {}
+    if shape == "P5":  # a field that is a number or a string: values that print alike
+        return {"tap": ch.pick([1, "1", 2.5, "2.5", "x", 0, "0"], "tap"), "width": ch.pick([None, 1], "width")}
     few = ch.chance(2, 3)  # small pools make equal parameters frequent
     sp = STR_POOL[:6] if few else STR_POOL
     ip = INT_POOL[:3] if few else INT_POOL
@@ -96,7 +98,10 @@ class Env:
         P2 = h.paramclass(type("P2", (), {"a": h.Param(dtype=Optional[str], desc="a", default=None), "b": h.Param(dtype=Optional[str], desc="b", default=None), "c": h.Param(dtype=float, desc="c", default=0.0)}))
         P3 = h.paramclass(type("P3", (), {"n": h.Param(dtype=P1, desc="n"), "e": h.Param(dtype=Color, desc="e"), "s": h.Param(dtype=h.Scalar, desc="s")}))
         P4 = h.paramclass(type("P4", (), {"m": h.Param(dtype=h.Instantiable, desc="m"), "k": h.Param(dtype=int, desc="k")}))
-        self.P = {"P1": P1, "P2": P2, "P3": P3, "P4": P4, "P0": h.HasNoParams}
+        from typing import Union
+
+        P5 = h.paramclass(type("P5", (), {"tap": h.Param(dtype=Union[int, float, str], desc="tap"), "width": h.Param(dtype=Optional[int], desc="width", default=None)}))
+        self.P = {"P1": P1, "P2": P2, "P3": P3, "P4": P4, "P0": h.HasNoParams, "P5": P5}
         ma = h.Module(name="ModA")
         ma.p = h.Port()
         mb = h.Module(name="ModB")
@@ -110,6 +115,8 @@ class Env:
         h = self.h
         if shape == "P0":
             return h.NoParams
+        if shape == "P5":
+            return self.P["P5"](**spec)
         if shape == "P1":
             return self.P["P1"](**spec)
         if shape == "P2":
@@ -135,6 +142,8 @@ class Env:
                 left = env.fail_left.get(key, g["n_fail"])
                 if left > 0:
                     env.fail_left[key] = left - 1
+                    if g.get("abort"):
+                        raise seams.InjectedAbort(f"generator body {gid} is interrupted")
                     raise seams.InjectedFault(f"generator body {gid} fails")
             if g["body"] == "pass":
                 inner = env.gens[g["callee"]]
@@ -167,6 +176,8 @@ class Env:
         tag = repr_params(p)
         if shape == "P0":
             return self.h.NoParams
+        if shape == "P5":
+            return self.P["P5"](tap=tag, width=None)
         if shape == "P1":
             return self.P["P1"](a=len(tag), b=tag)
         if shape == "P2":
@@ -218,7 +229,10 @@ def exec_calls(arg):
         probes[n] = probes.get(n, 0) + k
 
     def fail(clause, detail):
-        findings.append({"prop": "C09", "clause": clause, "detail": [detail]})
+        # what happens after a raising body is property C08's clause ("a generator whose body
+        # raised is simply run again"); everything else here is C09
+        prop = "C08" if clause in ("spurious-circular", "raising-body-not-rerun") else "C09"
+        findings.append({"prop": prop, "clause": clause, "detail": [detail]})
 
     def check_names():
         for mid, (nm, mod) in names_seen.items():
@@ -255,7 +269,7 @@ def exec_calls(arg):
                     m = gen(**{f.name: getattr(p, f.name) for f in dataclasses.fields(p)})
                 else:
                     m = gen(p)
-            except seams.InjectedFault:
+            except (seams.InjectedFault, seams.InjectedAbort):
                 obs[i] = {"raised": "injected"}
                 probe("body_raised")
                 if env.attempts.get(gid, 0) == before_attempts:
